@@ -17,6 +17,12 @@ open Aoe.Props.C05 (Diverge frame)
 /-- `q` lies outside every path of `W` -/
 def Outside (W : List (List Step)) (q : List Step) : Prop := ∀ w ∈ W, Diverge w q
 
+/-- a predicate on section trees that no write through the path `w` can destroy -/
+def Pres (Q : Val → Prop) (w : List Step) : Prop := ∀ t x t', setAt w t x = some t' → Q t → Q t'
+
+/-- … through any path of `W` -/
+def AllPres (Q : Val → Prop) (W : List (List Step)) : Prop := ∀ w ∈ W, Pres Q w
+
 /-- places the push of one (link, value) pair writes; `F` = footprint of a child commit -/
 def linkFoot (F : Nat → List Nat → Val → List (List Step)) (hist : List Nat) (lv : (Nat × LinkKind) × Val) :
     List (List Step) :=
@@ -41,39 +47,37 @@ def foot (classes : List ClassSpec) : Nat → Nat → List Nat → Val → List 
     | some c, .strct vals => (c.links.zip vals).flatMap (linkFoot (foot classes fuel) hist)
     | _, _ => []
 
-/-- one write through `setAt … |>.bind withRoot` leaves every diverging place alone -/
-theorem write_frame (s s' : Sections) (p q : List Step) (v : Val)
-    (h : (setAt p s.root v).bind s.withRoot = some s') (hd : Diverge p q) :
-    getAt q s'.root = getAt q s.root := by
+/-- one write through `setAt … |>.bind withRoot` keeps a predicate that writes through `p` keep -/
+theorem write_inv (Q : Val → Prop) (s s' : Sections) (p : List Step) (v : Val)
+    (h : (setAt p s.root v).bind s.withRoot = some s') (hp : Pres Q p) (hQ : Q s.root) : Q s'.root := by
   cases hs : setAt p s.root v with
   | none => simp [hs, Option.bind] at h
   | some r =>
     simp only [hs, Option.bind] at h
     rw [(withRoot_some s s' r h).1]
-    exact frame p q s.root v r hd hs
+    exact hp s.root v r hs hQ
 
-/-- a fold of state transformers each of which keeps `q` keeps `q` -/
-theorem foldlM_frame {α : Type} (f : Sections → α → Except Err Sections) (q : List Step) (l : List α)
-    (hf : ∀ a ∈ l, ∀ s s', f s a = .ok s' → getAt q s'.root = getAt q s.root)
-    (s s' : Sections) (h : l.foldlM f s = .ok s') : getAt q s'.root = getAt q s.root := by
+/-- a fold of state transformers each of which keeps `Q` keeps `Q` -/
+theorem foldlM_inv {α : Type} (Q : Val → Prop) (f : Sections → α → Except Err Sections) (l : List α)
+    (hf : ∀ a ∈ l, ∀ s s', f s a = .ok s' → Q s.root → Q s'.root)
+    (s s' : Sections) (h : l.foldlM f s = .ok s') (hQ : Q s.root) : Q s'.root := by
   induction l generalizing s with
-  | nil => simp only [List.foldlM, pure, Except.pure, Except.ok.injEq] at h; subst h; rfl
+  | nil => simp only [List.foldlM, pure, Except.pure, Except.ok.injEq] at h; subst h; exact hQ
   | cons a l ih =>
     simp only [List.foldlM, bind, Except.bind] at h
     cases h1 : f s a with
     | error e => rw [h1] at h; cases h
     | ok s1 =>
       rw [h1] at h
-      rw [ih (fun b hb => hf b (by simp [hb])) s1 h]
-      exact hf a (by simp) s s1 h1
+      exact ih (fun b hb => hf b (by simp [hb])) s1 h (hf a (by simp) s s1 h1 hQ)
 
 /-- the refresh actions write only their destinations -/
-theorem applyActs_frame (acts : List RefreshAct) (recPath : List Step) (names : List Nat) (q : List Step)
-    (hq : ∀ a ∈ acts, Diverge (a.dest.path recPath) q) (s s' : Sections)
-    (h : applyActs acts recPath names s = .ok s') : getAt q s'.root = getAt q s.root := by
+theorem applyActs_inv (Q : Val → Prop) (acts : List RefreshAct) (recPath : List Step) (names : List Nat)
+    (hq : ∀ a ∈ acts, Pres Q (a.dest.path recPath)) (s s' : Sections)
+    (h : applyActs acts recPath names s = .ok s') (hQ : Q s.root) : Q s'.root := by
   unfold applyActs at h
-  refine foldlM_frame _ q acts ?_ s s' h
-  intro a ha s0 s1 h1
+  refine foldlM_inv Q _ acts ?_ s s' h hQ
+  intro a ha s0 s1 h1 hQ0
   simp only [bind, Except.bind] at h1
   cases hg : getAt recPath s0.root with
   | none => simp [hg] at h1
@@ -88,33 +92,32 @@ theorem applyActs_frame (acts : List RefreshAct) (recPath : List Step) (names : 
       | some s2 =>
         simp only [hw, Except.ok.injEq] at h1
         subst h1
-        exact write_frame s0 s2 _ q v hw (hq a ha)
+        exact write_inv Q s0 s2 _ v hw (hq a ha) hQ0
 
 /-- the push of one link writes only inside its footprint (given that child commits write only inside theirs) -/
-theorem pushLink_frame (rc : Nat → List Nat → Val → Sections → Except Err Sections)
-    (F : Nat → List Nat → Val → List (List Step)) (q : List Step)
-    (hrc : ∀ ccls h o s s', rc ccls h o s = .ok s' → Outside (F ccls h o) q → getAt q s'.root = getAt q s.root)
+theorem pushLink_inv (Q : Val → Prop) (rc : Nat → List Nat → Val → Sections → Except Err Sections)
+    (F : Nat → List Nat → Val → List (List Step))
+    (hrc : ∀ ccls h o s s', rc ccls h o s = .ok s' → AllPres Q (F ccls h o) → Q s.root → Q s'.root)
     (hist : List Nat) (s s' : Sections) (lv : (Nat × LinkKind) × Val)
-    (h : pushLink rc hist s lv = .ok s') (hq : Outside (linkFoot F hist lv) q) :
-    getAt q s'.root = getAt q s.root := by
+    (h : pushLink rc hist s lv = .ok s') (hq : AllPres Q (linkFoot F hist lv)) (hQ : Q s.root) : Q s'.root := by
   obtain ⟨⟨a, k⟩, v⟩ := lv
   cases k with
-  | hist n => simp only [pushLink, pure, Except.pure, Except.ok.injEq] at h; subst h; rfl
-  | skip => simp only [pushLink, pure, Except.pure, Except.ok.injEq] at h; subst h; rfl
+  | hist n => simp only [pushLink, pure, Except.pure, Except.ok.injEq] at h; subst h; exact hQ
+  | skip => simp only [pushLink, pure, Except.pure, Except.ok.injEq] at h; subst h; exact hQ
   | plain path acts names =>
     simp only [pushLink, bind, Except.bind] at h
     cases hr : resolve hist path with
     | none => simp [hr] at h
     | some p =>
       simp only [hr, pure, Except.pure] at h
-      simp only [Outside, linkFoot, hr] at hq
+      simp only [AllPres, linkFoot, hr] at hq
       cases hw : (setAt p s.root v).bind s.withRoot with
       | none => simp [hw] at h
       | some s1 =>
         simp only [hw] at h
-        rw [applyActs_frame acts (dropLastStep p) names q
-              (fun a ha => hq _ (by simp; exact Or.inr ⟨a, ha, rfl⟩)) s1 s' h]
-        exact write_frame s s1 p q v hw (hq p (by simp))
+        exact applyActs_inv Q acts (dropLastStep p) names
+              (fun a ha => hq _ (by simp; exact Or.inr ⟨a, ha, rfl⟩)) s1 s' h
+              (write_inv Q s s1 p v hw (hq p (by simp)) hQ)
   | objs path ccls defaults childNames guards acts names =>
     simp only [pushLink, bind, Except.bind] at h
     cases hr : resolve hist path with
@@ -124,7 +127,7 @@ theorem pushLink_frame (rc : Nat → List Nat → Val → Sections → Except Er
       cases v with
       | list os =>
         simp only at h
-        simp only [Outside, linkFoot, hr] at hq
+        simp only [AllPres, linkFoot, hr] at hq
         cases hg : getAt p s.root with
         | none => simp [hg] at h
         | some ov =>
@@ -135,16 +138,15 @@ theorem pushLink_frame (rc : Nat → List Nat → Val → Sections → Except Er
             have key : ∀ (dflt : Val) (s1 s2 : Sections),
                 (setAt p s.root (.list (resizeList old os.length dflt))).bind s.withRoot = some s1 →
                 (os.zipIdx).foldlM (fun (s : Sections) (oi : Val × Nat) => rc ccls (hist ++ [oi.2]) oi.1 s) s1 = .ok s2 →
-                applyActs acts (dropLastStep p) names s2 = .ok s' → getAt q s'.root = getAt q s.root := by
+                applyActs acts (dropLastStep p) names s2 = .ok s' → Q s'.root := by
               intro dflt s1 s2 hw hf h
-              rw [applyActs_frame acts (dropLastStep p) names q
-                    (fun a ha => hq _ (by simp; exact Or.inr (Or.inl ⟨a, ha, rfl⟩))) s2 s' h]
-              rw [foldlM_frame _ q (os.zipIdx) ?_ s1 s2 hf]
-              · exact write_frame s s1 p q _ hw (hq p (by simp))
-              · intro oi hoi t t' ht
-                refine hrc ccls (hist ++ [oi.2]) oi.1 t t' ht ?_
-                intro w hw'
-                exact hq w (by simp; exact Or.inr (Or.inr ⟨oi.1, oi.2, hoi, hw'⟩))
+              refine applyActs_inv Q acts (dropLastStep p) names
+                    (fun a ha => hq _ (by simp; exact Or.inr (Or.inl ⟨a, ha, rfl⟩))) s2 s' h ?_
+              refine foldlM_inv Q _ (os.zipIdx) ?_ s1 s2 hf (write_inv Q s s1 p _ hw (hq p (by simp)) hQ)
+              intro oi hoi t t' ht hQt
+              refine hrc ccls (hist ++ [oi.2]) oi.1 t t' ht ?_ hQt
+              intro w hw'
+              exact hq w (by simp; exact Or.inr (Or.inr ⟨oi.1, oi.2, hoi, hw'⟩))
             by_cases hle : os.length ≤ old.length
             · rw [if_pos hle] at h
               try simp only [pure, Except.pure] at h
@@ -173,16 +175,15 @@ theorem pushLink_frame (rc : Nat → List Nat → Val → Sections → Except Er
           | _ => rw [hg] at h; cases h
       | _ => cases h
 
-/-- **frame of a commit, all classes**: a place that diverges from every path of the object's footprint holds after the
-commit what it held before -/
-theorem commitObj_frame (classes : List ClassSpec) (q : List Step) (fuel : Nat) :
+/-- **a commit keeps every predicate that writes through its footprint keep** (all classes, any nesting) -/
+theorem commitObj_inv (Q : Val → Prop) (classes : List ClassSpec) (fuel : Nat) :
     ∀ (cls : Nat) (hist : List Nat) (obj : Val) (s s' : Sections),
-      commitObj classes fuel cls hist obj s = .ok s' → Outside (foot classes fuel cls hist obj) q →
-      getAt q s'.root = getAt q s.root := by
+      commitObj classes fuel cls hist obj s = .ok s' → AllPres Q (foot classes fuel cls hist obj) →
+      Q s.root → Q s'.root := by
   induction fuel with
   | zero => intro cls hist obj s s' h; simp [commitObj] at h
   | succ fuel ih =>
-    intro cls hist obj s s' h hq
+    intro cls hist obj s s' h hq hQ
     simp only [commitObj] at h
     cases hc : classes[cls]? with
     | none => simp [hc] at h
@@ -190,15 +191,29 @@ theorem commitObj_frame (classes : List ClassSpec) (q : List Step) (fuel : Nat) 
       cases obj with
       | strct vals =>
         simp only [hc] at h
-        simp only [foot, hc, Outside] at hq
-        refine foldlM_frame _ q _ ?_ s s' h
-        intro lv hlv t t' ht
-        refine pushLink_frame (commitObj classes fuel) (foot classes fuel) q ?_ hist t t' lv ht ?_
-        · intro ccls hh o u u' hu hou
-          exact ih ccls hh o u u' hu hou
+        simp only [foot, hc, AllPres] at hq
+        refine foldlM_inv Q _ _ ?_ s s' h hQ
+        intro lv hlv t t' ht hQt
+        refine pushLink_inv Q (commitObj classes fuel) (foot classes fuel) ?_ hist t t' lv ht ?_ hQt
+        · intro ccls hh o u u' hu hou hQu
+          exact ih ccls hh o u u' hu hou hQu
         · intro w hw
           exact hq w (List.mem_flatMap.mpr ⟨lv, by simpa using hlv, hw⟩)
       | _ => simp [hc] at h
+
+/-- a place outside `w` is kept by writes through `w` -/
+theorem pres_of_diverge (q w : List Step) (c : Option Val) (hd : Diverge w q) : Pres (fun t => getAt q t = c) w := by
+  intro t x t' hs hq
+  rw [frame w q t x t' hd hs]; exact hq
+
+/-- **frame of a commit, all classes**: a place that diverges from every path of the object's footprint holds after the
+commit what it held before -/
+theorem commitObj_frame (classes : List ClassSpec) (q : List Step) (fuel : Nat)
+    (cls : Nat) (hist : List Nat) (obj : Val) (s s' : Sections)
+    (h : commitObj classes fuel cls hist obj s = .ok s') (hq : Outside (foot classes fuel cls hist obj) q) :
+    getAt q s'.root = getAt q s.root :=
+  commitObj_inv (fun t => getAt q t = getAt q s.root) classes fuel cls hist obj s s' h
+    (fun w hw => pres_of_diverge q w _ (hq w hw)) rfl
 
 /-- … and of a whole reconstruct (all managers in their fixed order) -/
 theorem commitAll_frame (classes : List ClassSpec) (q : List Step) (managers : List Nat) (objs : List Val) (s s' : Sections)
@@ -206,9 +221,10 @@ theorem commitAll_frame (classes : List ClassSpec) (q : List Step) (managers : L
     (hq : ∀ mo ∈ managers.zip objs, Outside (foot classes 4 mo.1 [] mo.2) q) :
     getAt q s'.root = getAt q s.root := by
   unfold commitAll at h
-  refine foldlM_frame _ q _ ?_ s s' h
-  intro mo hmo t t' ht
-  exact commitObj_frame classes q 4 mo.1 [] mo.2 t t' ht (hq mo hmo)
+  refine foldlM_inv (fun t => getAt q t = getAt q s.root) _ _ ?_ s s' h rfl
+  intro mo hmo t t' ht hQt
+  exact commitObj_inv (fun t => getAt q t = getAt q s.root) classes 4 mo.1 [] mo.2 t t' ht
+    (fun w hw => pres_of_diverge q w _ (hq mo hmo w hw)) hQt
 
 /-! non-vacuity: the footprint of the demo object of `Aoe.Props.Links` and a place outside it -/
 example : foot demoClasses 2 0 [] (.strct [.int 5, .int 0, .none, .str [0x62]]) =
@@ -221,5 +237,166 @@ example : Outside (foot demoClasses 2 0 [] (.strct [.int 5, .int 0, .none, .str 
   rcases this with rfl | rfl
   · exact Or.inr ⟨rfl, Or.inl (by decide)⟩
   · exact Or.inl (by decide)
+
+end Aoe.Props.CommitFrame
+
+namespace Aoe.Props.CommitFrame
+open Aoe Aoe.Codec Aoe.Lens Aoe.Commit Aoe.Props.Links
+open Aoe.Props.C05 (Diverge frame get_set)
+
+/-! ## the number of stored elements of a struct list (towards C04: stored counts = number of stored elements) -/
+
+/-- the place `p` holds a list of `n` elements -/
+def ListLen (p : List Step) (n : Nat) (t : Val) : Prop := ∃ l, getAt p t = some (.list l) ∧ l.length = n
+
+/-- a write strictly below an element of the list at `p` keeps the number of elements of that list -/
+theorem pres_len_below (p : List Step) (n i : Nat) (r : List Step) : Pres (ListLen p n) (p ++ Step.idx i :: r) := by
+  induction p with
+  | nil =>
+    intro t x t' hs ⟨l, hg, hl⟩
+    simp only [getAt, Option.some.injEq] at hg
+    subst hg
+    simp only [List.nil_append, setAt] at hs
+    cases hi : l[i]? with
+    | none => simp [hi] at hs
+    | some v =>
+      simp only [hi] at hs
+      cases hr : setAt r v x with
+      | none => simp [hr] at hs
+      | some v' =>
+        simp only [hr, Option.some.injEq] at hs
+        subst hs
+        exact ⟨l.set i v', rfl, by simp [hl]⟩
+  | cons a p ih =>
+    intro t x t' hs ⟨l, hg, hl⟩
+    cases a with
+    | fld j =>
+      cases t with
+      | strct vs =>
+        simp only [List.cons_append, setAt] at hs
+        simp only [getAt] at hg
+        cases hj : vs[j]? with
+        | none => simp [hj] at hs
+        | some v =>
+          simp only [hj] at hs hg
+          cases hr : setAt (p ++ Step.idx i :: r) v x with
+          | none => simp [hr] at hs
+          | some v' =>
+            simp only [hr, Option.some.injEq] at hs
+            subst hs
+            obtain ⟨l', hg', hl'⟩ := ih v x v' hr ⟨l, hg, hl⟩
+            refine ⟨l', ?_, hl'⟩
+            have hlt : j < vs.length := by
+              rcases List.getElem?_eq_some_iff.mp hj with ⟨h, _⟩; exact h
+            simp only [getAt, List.getElem?_set_self hlt]
+            exact hg'
+      | _ => simp [setAt] at hs
+    | idx j =>
+      cases t with
+      | list vs =>
+        simp only [List.cons_append, setAt] at hs
+        simp only [getAt] at hg
+        cases hj : vs[j]? with
+        | none => simp [hj] at hs
+        | some v =>
+          simp only [hj] at hs hg
+          cases hr : setAt (p ++ Step.idx i :: r) v x with
+          | none => simp [hr] at hs
+          | some v' =>
+            simp only [hr, Option.some.injEq] at hs
+            subst hs
+            obtain ⟨l', hg', hl'⟩ := ih v x v' hr ⟨l, hg, hl⟩
+            refine ⟨l', ?_, hl'⟩
+            have hlt : j < vs.length := by
+              rcases List.getElem?_eq_some_iff.mp hj with ⟨h, _⟩; exact h
+            simp only [getAt, List.getElem?_set_self hlt]
+            exact hg'
+      | _ => simp [setAt] at hs
+
+/-- a write that diverges from `p` keeps the list at `p` altogether -/
+theorem pres_len_diverge (p w : List Step) (n : Nat) (hd : Diverge w p) : Pres (ListLen p n) w := by
+  intro t x t' hs ⟨l, hg, hl⟩
+  exact ⟨l, by rw [frame w p t x t' hd hs]; exact hg, hl⟩
+
+theorem resizeList_length (old : List Val) (n : Nat) (d : Val) : (resizeList old n d).length = n := by
+  unfold resizeList
+  split
+  · simp; omega
+  · simp; omega
+
+/-- the steps of the push of an object-list link, spelled out -/
+theorem pushLink_objs_steps (rc : Nat → List Nat → Val → Sections → Except Err Sections) (hist : List Nat)
+    (s s' : Sections) (a : Nat) (path : List PStep) (ccls : Nat) (defaults : List Val) (childNames : List Nat)
+    (guards : List (Nat × Expr)) (acts : List RefreshAct) (names : List Nat) (os : List Val)
+    (h : pushLink rc hist s ((a, .objs path ccls defaults childNames guards acts names), .list os) = .ok s') :
+    ∃ p old dflt s1 s2, resolve hist path = some p ∧ getAt p s.root = some (.list old) ∧
+      (setAt p s.root (.list (resizeList old os.length dflt))).bind s.withRoot = some s1 ∧
+      (os.zipIdx).foldlM (fun (s : Sections) (oi : Val × Nat) => rc ccls (hist ++ [oi.2]) oi.1 s) s1 = .ok s2 ∧
+      applyActs acts (dropLastStep p) names s2 = .ok s' := by
+  simp only [pushLink, bind, Except.bind] at h
+  cases hr : resolve hist path with
+  | none => simp [hr] at h
+  | some p =>
+    simp only [hr, pure, Except.pure] at h
+    cases hg : getAt p s.root with
+    | none => simp [hg] at h
+    | some ov =>
+      cases ov with
+      | list old =>
+        simp only [hg] at h
+        by_cases hle : os.length ≤ old.length
+        · rw [if_pos hle] at h
+          try simp only [pure, Except.pure] at h
+          cases hw : (setAt p s.root (.list (resizeList old os.length (Val.strct [])))).bind s.withRoot with
+          | none => rw [hw] at h; cases h
+          | some s1 =>
+            rw [hw] at h
+            simp only at h
+            cases hf : (os.zipIdx).foldlM (fun (s : Sections) (oi : Val × Nat) => rc ccls (hist ++ [oi.2]) oi.1 s) s1 with
+            | error e => rw [hf] at h; cases h
+            | ok s2 => rw [hf] at h; exact ⟨p, old, Val.strct [], s1, s2, rfl, hg, hw, hf, h⟩
+        · rw [if_neg hle] at h
+          cases hdf : defaultStruct defaults childNames guards s with
+          | error e => rw [hdf] at h; cases h
+          | ok dflt =>
+            rw [hdf] at h
+            simp only at h
+            cases hw : (setAt p s.root (.list (resizeList old os.length dflt))).bind s.withRoot with
+            | none => rw [hw] at h; cases h
+            | some s1 =>
+              rw [hw] at h
+              simp only at h
+              cases hf : (os.zipIdx).foldlM (fun (s : Sections) (oi : Val × Nat) => rc ccls (hist ++ [oi.2]) oi.1 s) s1 with
+              | error e => rw [hf] at h; cases h
+              | ok s2 => rw [hf] at h; exact ⟨p, old, dflt, s1, s2, rfl, hg, hw, hf, h⟩
+      | _ => rw [hg] at h; cases h
+
+/-- **after the push of an object list the struct list holds exactly as many records as there are objects** - provided
+the child commits and the refresh actions only write below the records / elsewhere (`AllPres (ListLen …)`) -/
+theorem pushLink_objs_len (rc : Nat → List Nat → Val → Sections → Except Err Sections)
+    (F : Nat → List Nat → Val → List (List Step)) (hist : List Nat)
+    (s s' : Sections) (a : Nat) (path : List PStep) (ccls : Nat) (defaults : List Val) (childNames : List Nat)
+    (guards : List (Nat × Expr)) (acts : List RefreshAct) (names : List Nat) (os : List Val) (p : List Step)
+    (hp : resolve hist path = some p)
+    (hrc : ∀ h o t t', rc ccls h o t = .ok t' → AllPres (ListLen p os.length) (F ccls h o) →
+      ListLen p os.length t.root → ListLen p os.length t'.root)
+    (hch : ∀ oi ∈ os.zipIdx, AllPres (ListLen p os.length) (F ccls (hist ++ [oi.2]) oi.1))
+    (hacts : ∀ a ∈ acts, Pres (ListLen p os.length) (a.dest.path (dropLastStep p)))
+    (h : pushLink rc hist s ((a, .objs path ccls defaults childNames guards acts names), .list os) = .ok s') :
+    ListLen p os.length s'.root := by
+  obtain ⟨p', old, dflt, s1, s2, hr, hg, hw, hf, ha⟩ := pushLink_objs_steps rc hist s s' a path ccls defaults childNames guards acts names os h
+  rw [hp] at hr; cases hr
+  have h1 : ListLen p os.length s1.root := by
+    cases hs : setAt p s.root (.list (resizeList old os.length dflt)) with
+    | none => simp [hs, Option.bind] at hw
+    | some r =>
+      simp only [hs, Option.bind] at hw
+      rw [(withRoot_some s s1 r hw).1]
+      exact ⟨_, get_set p s.root _ r hs, resizeList_length old os.length dflt⟩
+  have h2 : ListLen p os.length s2.root := by
+    refine foldlM_inv (ListLen p os.length) _ (os.zipIdx) ?_ s1 s2 hf h1
+    intro oi hoi t t' ht hQt
+    exact hrc (hist ++ [oi.2]) oi.1 t t' ht (hch oi hoi) hQt
+  exact applyActs_inv (ListLen p os.length) acts (dropLastStep p) names hacts s2 s' ha h2
 
 end Aoe.Props.CommitFrame
